@@ -42,16 +42,16 @@ Section inv.
              t ∉ completed (ctl s) ∧ w ∉ idle (ctl s) ∧ (w, t) ∈ dispatched s ∧ is_task t ∧
              (wq s !! w = Some t ∨ (t ∈ finished s ∧ EPub w (last_out J t) ∈ pool s));
     i_pub : ∀ w d, EPub w d ∈ pool s →
-             d.1 ∈ finished s ∧ d ∈ outs J d.1 ∧ is_task d.1 ∧
-             (d = last_out J d.1 → d.1 ∈ ong (ctl s) w) ∧
+             d ∈ published s ∧ d ∈ outs J d.1 ∧ is_task d.1 ∧
+             (d = last_out J d.1 → d.1 ∈ ong (ctl s) w ∧ d.1 ∈ finished s) ∧
              ∃ h, e_host E !! w = Some h ∧ (d ∉ purged (ctl s) → (h, d) ∈ store s);
     i_pub_nodup : NoDup (pub_ds (pool s));
-    i_xev : ∀ h d, EXfer h d ∈ pool s → d.1 ∈ finished s ∧ (d ∉ purged (ctl s) → (h, d) ∈ store s);
-    i_store_fin : ∀ h d, (h, d) ∈ store s → d.1 ∈ finished s;
+    i_xev : ∀ h d, EXfer h d ∈ pool s → d ∈ published s ∧ (d ∉ purged (ctl s) → (h, d) ∈ store s);
+    i_store_pub : ∀ h d, (h, d) ∈ store s → d ∈ published s;
     i_store_h2d : ∀ h d, (h, d) ∈ store s → d ∉ purged (ctl s) → is_Some (ds2host (ctl s) !! (d, h));
     i_avail_store : ∀ d h, ds2host (ctl s) !! (d, h) = Some true → d ∉ purged (ctl s) → (h, d) ∈ store s;
     i_seen_avail : ∀ d, d ∈ seen (ctl s) → d ∉ purged (ctl s) → ∃ h, ds2host (ctl s) !! (d, h) = Some true;
-    i_seen_fin : ∀ d, d ∈ seen (ctl s) → d.1 ∈ finished s;
+    i_seen_pub : ∀ d, d ∈ seen (ctl s) → d ∈ published s;
     i_purges : ∀ h d, (h, d) ∈ purges s → d ∈ purged (ctl s);
     i_pq : ∀ d, d ∈ purged (ctl s) ∪ pqueue (ctl s) →
              ptracker (ctl s) !! d = None ∧ d ∈ seen (ctl s) ∧ (d ∈ j_ext J → has_value (ctl s) d = true);
@@ -68,7 +68,7 @@ Section inv.
     i_fin_disp : ∀ t, t ∈ finished s → t ∈ (dispatched s).*2 ∧ ∀ w, wq s !! w ≠ Some t;
     i_prep : ∀ d h, is_Some (ds2host (ctl s) !! (d, h)) → d ∉ purged (ctl s) →
              (h, d) ∈ store s ∨ (∃ src, (d, src, h) ∈ xfers s) ∨
-             (∃ w, wq s !! w = Some d.1 ∧ e_host E !! w = Some h ∧ d ∈ outs J d.1);
+             (∃ w, wq s !! w = Some d.1 ∧ e_host E !! w = Some h ∧ d ∈ outs J d.1 ∧ d ∉ published s);
     i_xfer : ∀ d src tgt, (d, src, tgt) ∈ xfers s →
              d ∉ purged (ctl s) ∧ d ∉ pqueue (ctl s) ∧ ds2host (ctl s) !! (d, src) = Some true ∧
              is_Some (ds2host (ctl s) !! (d, tgt)) ∧ (tgt, d) ∉ store s ∧
@@ -91,7 +91,10 @@ Section inv.
     (* --- progress bookkeeping (used by C03) *)
     i_phase : ∀ t, is_task t → t ∉ completed (ctl s) →
              t ∈ computable (ctl s) ∨ is_Some (tracker (ctl s) !! t) ∨ ∃ w, t ∈ ong (ctl s) w;
-    i_fin_ev : ∀ t d, t ∈ finished s → d ∈ outs J t → d ∈ seen (ctl s) ∨ d ∈ pub_ds (pool s);
+    i_pub_ev : ∀ d, d ∈ published s → d ∈ seen (ctl s) ∨ d ∈ pub_ds (pool s);
+    i_fin_pub : ∀ t, t ∈ finished s → outs J t ⊆ published s;
+    i_published : ∀ d, d ∈ published s → is_task d.1 ∧ d ∈ outs J d.1 ∧ (d.1 ∈ finished s ∨ ∃ w, wq s !! w = Some d.1);
+    i_running : ∀ w t, wq s !! w = Some t → last_out J t ∉ published s;
     i_seen_ext : ∀ d, d ∈ seen (ctl s) → d ∈ j_ext J → d ∈ fetched (ctl s) ∨ is_Some (fqueue (ctl s) !! d);
     i_fetched : ∀ d, d ∈ fetched (ctl s) →
              d ∈ (fetches s).*1 ∨ d ∈ pay_ds (pool s) ∨ is_Some (outputs (ctl s) !! d);
